@@ -1,4 +1,4 @@
-"""C04 — parsing is total; index/err discipline (structural clauses; the accepted language is not decided)."""
+"""C04 — parsing is total; index/err discipline; the grammar as outcome tables of the three field parsers and the driver."""
 from ..rules import parser, data, normal
 
 EXPL = ("Decides: (1) SA-PANIC totality: every panic edge in the call-graph closure of the six generic parse entry points "
@@ -8,8 +8,17 @@ EXPL = ("Decides: (1) SA-PANIC totality: every panic edge in the call-graph clos
         "whose inputs are length-bounded at every call site (the defect F1, now fixed, violated exactly this); (2) SA-ERRPURE: the "
         "caller's index is written only on the way to Ok; (3) SA-PHASE: every ParseError built in the k-th block-hash phase names "
         "BlockHash<k>, the two parse calls fill (blockhashK, len_blockhashK) with capacity SK; (4) the stored symbol is the reverse "
-        "table value on the not-INVALID arm and the tables are exact inverses (SA-DATA), destinations are fresh. NOT decided: that "
-        "the accepted language is exactly the grammar.")
+        "table value on the not-INVALID arm and the tables are exact inverses (SA-DATA), destinations are fresh; (5) SA-GUARD, the grammar as tables read off the controlling branch conditions: the block-size field parser "
+        "reaches each of its six errors and Ok exactly under the grammar's condition with the documented position (digits accumulated as "
+        "10*x + d with overflow detection, leading zero, empty, out of range, not one of the 31 sizes, stray byte, end of input); a block-hash "
+        "field stops with MetColon / MetComma at ':' / ',' (terminator eaten), MetEndOfString at the end, Base64Error at any other byte, "
+        "OverflowError exactly when the stored length reached the capacity (default parser) or the bounded iterator ran dry before a "
+        "terminator (strict parser), `consumed` being the counter of items taken; the driver turns (field, stop state) into the documented "
+        "outcome: field 1 must stop at ':', field 2 at ',' (index = offset-1) or the end (index = offset), every other state is the "
+        "documented error kind / origin / position, offset being the sum of the consumed counts; all public forms run this one driver on "
+        "the caller's bytes; the run limit of the normalising parser agrees with the other run detectors. NOT decided: the composition "
+        "of these tables into `accepted language == grammar` as a statement over all strings (it follows from them by reading, not by a "
+        "mechanised argument), and the values stored for accepted text beyond `each symbol is the reverse-table value`.")
 
 
 def run(ctx):
@@ -25,6 +34,8 @@ def run(ctx):
         ctx.guard("C04", "lookahead", lambda: parser.strict_lookahead(ctx, prog))
         ctx.guard("C04", "blocksize", lambda: parser.block_size_field(ctx, prog))
         ctx.guard("C04", "forms", lambda: parser.entry_forms(ctx, prog))
+        ctx.guard("C04", "endclass", lambda: parser.end_classification(ctx, prog))
+        ctx.guard("C04", "outcomes", lambda: parser.driver_outcomes(ctx, prog))
         ctx.guard("C04", "runlimit", lambda: normal.run_limit_agreement(ctx, prog))
         ctx.guard("C04", "tables", lambda: data.base64_tables(ctx, prog))
     return ctx.finish(EXPL, ["overflow checks of debug builds are not part of the verdict (release-like configurations decide)", "core slice/iterator APIs panic only as documented", "residue entries are reviewed by hand; each states its reason"])
